@@ -64,6 +64,10 @@ def extract(repo, config, log=None):
     try:
         ok = all(os.path.exists(os.path.join(out, c + '.json')) for c in CRATES) and os.path.exists(os.path.join(out, 'DONE'))
         if ok:
+            try:
+                os.utime(os.path.join(WORK, 'facts', th), None)   # in use: keep it out of a concurrent run's GC
+            except OSError:
+                pass
             return out, th, False
         ensure_driver()
         tgt = os.path.join(WORK, tgt_name)
@@ -96,6 +100,10 @@ def extract_corpus(repo):
     fcntl.flock(lock, fcntl.LOCK_EX)
     try:
         if os.path.exists(fact) and os.path.exists(os.path.join(out, 'DONE')):
+            try:
+                os.utime(os.path.join(WORK, 'facts', th), None)
+            except OSError:
+                pass
             return fact
         ensure_driver()
         bdir = os.path.join(WORK, 'corpus-build', tgt_name)
